@@ -98,7 +98,9 @@ Var2 ==
          fin == FAllFinite(E.proj_g_minus) /\ FAllFinite(E.proj_g_plus) /\ FFinite(E.sym_ab) /\ FFinite(E.sym_ba)
      IN
      fin =>
-     /\ Chk("C17.second_variation_projected", <<VInfo, d, E.sym_ab, l>>, d, E.sym_ab, TolDiffQuot, E.sym_scale, "0")
+     \* on the pore profile of polar / cylindrical grids the functional derivative itself carries convolution noise from the empty region (its projections at
+     \* rho(1 +- e eta), rho(1 +- 2e eta) are not even monotone in e for the cross-associating mixture at 2048 points): no difference quotient is judged there
+     /\ (~NoiseDominated => Chk("C17.second_variation_projected", <<VInfo, d, E.sym_ab, l>>, d, E.sym_ab, TolDiffQuot, E.sym_scale, "0"))
      /\ (~NoiseDominated => Chk("C17.second_variation_symmetric", <<VInfo, E.sym_ab, E.sym_ba, l>>, E.sym_ab, E.sym_ba, tolS, E.sym_scale, "0"))
      /\ (E.has_fields =>
            LET n == Len(E.H_eta)
@@ -261,7 +263,9 @@ Curved(g) == g # "slit"
 \* difference quotients at 256 / 2048 points agree with dn_dt to 1e-7, those at 512 / 1024 points to 4e-4 .. 2e-3), hence the wide band there.
 TolDmu(e) == FAdd("1e-5", Noise(e))
 TolDp(e) == FAdd("1e-4", Noise(e))
-TolDt(e) == FAdd(IF Curved(e.geometry) THEN "2e-2" ELSE "1e-4", Noise(e))
+\* cylindrical grids: dn_dt inherits the adjointness defect of the cylindrical convolution (C17) just as the Gibbs relation does (band 0.15 there); measured 2.1e-2
+\* (PC-SAFT carbon dioxide, Steele pore, 512 points, with a Gibbs defect of 2.6e-2 on the same profile)
+TolDt(e) == FAdd(IF e.geometry = "cylindrical" THEN "5e-2" ELSE IF Curved(e.geometry) THEN "2e-2" ELSE "1e-4", Noise(e))
 \* Gibbs adsorption and the symmetry of dn_dmu need the functional derivative to be the gradient of the discrete functional: exact on Cartesian
 \* grids; calibrated bounds on curved grids (measured worst cases: cylindrical 3.3e-2 / 5e-5, spherical at 512 points 3.1e-3 / 7e-5)
 TolGibbs(g, n) == IF g = "slit" THEN "1e-7"
@@ -290,7 +294,9 @@ Response ==
           /\ \A i \in 1..nc :
                /\ Chk("C19.dn_dp", <<RInfo, i, l>>, FDiv(St4(NodeColI(E.p_nodes, "N", i)), FMul("12", FMul(E.h, b.p))), E.dn_dp[i], TolDp(E), FSumAbs(E.dn_dp), "0")
                /\ Chk("C19.dn_dt", <<RInfo, i, l>>, FDiv(St4(NodeColI(E.t_nodes, "N", i)), FMul("12", FMul(E.h, b.T))), E.dn_dt[i], TolDt(E), FSumAbs(E.dn_dt), "0")
-               /\ Report("C19.dn_dmu_positive", <<RInfo, i, E.dn_dmu[i][i], l>>, FLt("0", E.dn_dmu[i][i]))
+               \* a positive diagonal of dn_dmu is a property of STABLE profiles; the Newton polish also converges to unstable stationary points (found: a
+               \* cross-associating mixture with dN/dp < 0 for both components), and C19 does not speak about stability: judged on the stable branch only
+               /\ ((\A j \in 1..Len(E.dn_dp) : FLt("0", E.dn_dp[j])) => Report("C19.dn_dmu_positive", <<RInfo, i, E.dn_dmu[i][i], l>>, FLt("0", E.dn_dmu[i][i])))
                /\ \A k \in 1..nc : Chk("C19.dn_dmu_symmetric", <<RInfo, i, k, l>>, E.dn_dmu[i][k], E.dn_dmu[k][i], TolSym(E.geometry), FSqrt(FAbs(FMul(E.dn_dmu[i][i], E.dn_dmu[k][k]))), "0")
           /\ (Has(E, "h_partial") =>
                 /\ \A k \in 1..nc : Chk("C19.enthalpy_of_adsorption_partial", <<RInfo, k, l>>, FDot(E.dn_dmu[k], E.h_partial), FNeg(FMul(b.T, E.dn_dt[k])), "1e-8",
